@@ -26,6 +26,7 @@ def prop_case(draw, tier="quick"):
     samp = draw(gen.sampling(shape))
     wl = samp["wavelength"]
     nplanes = draw(st.sampled_from([1, 1, 2, 3]))
+    amp_scale = draw(gen.scales())
     planes = []
     for i in range(nplanes):
         amp, opd, mask = draw(gen.aperture(shape, wl, min_samples=2 if i else 3))
@@ -34,6 +35,8 @@ def prop_case(draw, tier="quick"):
             mask = mask.astype(bool)
         elif mform == "float":
             mask = mask.astype(float) * 2.5            # non-binary weights: only the support matters
+        if i == 0:
+            amp = amp * amp_scale
         planes.append({"amp": amp, "opd": opd, "mask": mask if draw(st.booleans()) else None,
                        "f": samp["z"] if i == nplanes - 1 else draw(gen.finite(0.5, 50.0))})
     os_ = samp["oversample"]
@@ -147,7 +150,8 @@ def dft(case, ctx):
             "per_axis_dx" if dxp[0] != dxp[1] else None, "per_axis_du" if dup[0] != dup[1] else None,
             "prop<shape" if win != full else None, "mask" if case["mask"] is not None else None,
             f"os:{os_}", "image_to_pupil" if case["back"] else None, f"chain_len:{len(case['planes'])}",
-            "nonsquare_in" if shape[0] != shape[1] else None, "shape:none" if case["out_shape"] is None else None)
+            "nonsquare_in" if shape[0] != shape[1] else None, "shape:none" if case["out_shape"] is None else None,
+            "amp_scale:%.0e" % float(np.max(np.abs(case["planes"][0]["amp"]))))
     nz = int(np.count_nonzero(model))
     ctx.nontrivial_if(nz >= 3 and not point_symmetric(model))
     kw = {}
